@@ -85,6 +85,9 @@ ENTRY = [
     ('IssuerMetadata::validate', r'issuer::<impl at identity_credential/src/sd_jwt_vc/[^>]*>::validate$', None, r'issuer::<impl at [^>]*>::validate::\{closure', 1),
     ('TypeMetadata::validate_credential', r'vc_type::<impl at identity_credential/src/sd_jwt_vc/[^>]*>::validate_credential$', None, r'validate_credential::\{closure', 1),
     ('vc_type::validate_credential_with_schema', r'^validate_credential_with_schema$', None, r'validate_credential_with_schema::\{closure', 1),
+    # serialisers of accepted values (the claims constructors index / unwrap what the credential carries)
+    ('CredentialJwtClaims::new', r'credential::jwt_serialization::<impl at [^>]*>::new$', r'Credential<T>', r'jwt_serialization::<impl at [^>]*>::new($|::\{closure)', 1),
+    ('PresentationJwtClaims::new', r'presentation::jwt_serialization::<impl at [^>]*>::new$', r'Presentation<', r'jwt_serialization::<impl at [^>]*>::new($|::\{closure)', 1),
     ('Jwk::to_public', r'jwk::key::<impl at [^>]*>::to_public$', None, r'key_params::<impl at [^>]*>::to_public$|jwk::key::<impl at [^>]*>::(use_|alg|kid|key_ops|params|from_params|is_public)$', 1),
 ]
 
@@ -96,6 +99,18 @@ ENTRY_V = [
     ('Secp256K1Verifier::verify', r'secp256k1::<impl at [^>]*>::verify$', None, r'secp256k1::<impl at [^>]*>::verify::\{closure', 1),
     ('EdDSAJwsVerifier::verify', r'eddsa_verifier::<impl at [^>]*>::verify$', None, None, 1),
     ('EcDSAJwsVerifier::verify', r'ecdsa_jws_verifier::<impl at [^>]*>::verify$', None, None, 1),
+]
+
+# async validators over issuer-supplied SD-JWT VC metadata: the coroutine bodies from their initial state, awaited resolver calls
+# complete immediately with unconstrained results (fault-schedule mode, as in C09)
+ENTRY_CO = [
+    ('TypeMetadata::validate_credential_with_resolver (recursive body)', r'validate_credential_impl::\{closure#0\}$'),
+    ('TypeMetadata::validate_credential_with_resolver', r'vc_type::<impl at [^>]*>::validate_credential_with_resolver::\{closure#0\}$'),
+    ('SdJwtVc::issuer_metadata', r'token::<impl at [^>]*sd_jwt_vc[^>]*>::issuer_metadata::\{closure#0\}$'),
+    ('SdJwtVc::type_metadata', r'token::<impl at [^>]*sd_jwt_vc[^>]*>::type_metadata::\{closure#0\}$'),
+    ('SdJwtVc::issuer_jwk', r'token::<impl at [^>]*sd_jwt_vc[^>]*>::issuer_jwk::\{closure#0\}$'),
+    ('SdJwtVc::issuer_jwk_from_iss_metadata', r'token::<impl at [^>]*sd_jwt_vc[^>]*>::issuer_jwk_from_iss_metadata::\{closure#0\}$'),
+    ('SdJwtVc::validate', r'token::<impl at [^>]*sd_jwt_vc[^>]*>::validate::\{closure#0\}$'),
 ]
 
 # panic sites that are unreachable because of a guard decided elsewhere (site regex on the panic message -> justification)
@@ -221,10 +236,35 @@ def is_sub(t, want):
 def main(ctx):
     prog, info = load(CRATES)
     ctx.extra['mir'] = info
-    ctx.bounds.append('%d entry points; every acyclic path with callee results unconstrained; loops unrolled as noted per obligation' % (len(ENTRY) + len(ENTRY_V)))
+    ctx.bounds.append('%d entry points; every acyclic path with callee results unconstrained; loops unrolled as noted per obligation' % (len(ENTRY) + len(ENTRY_V) + len(ENTRY_CO)))
     ctx.outside += ['panics inside callees that are not inlined: serde_json, the third-party did_url_parser beyond its method-id cursor kernel, url, time, flate2, roaring, prefix_hex, sd-jwt-payload',
                     'entry points whose body is a serde derive or an async state machine not listed above', 'SD-JWT VC: async metadata fetching (resolver callbacks), the JSON-schema validator and serde derives', 'StatusList2021 get/set/entry/set_entry: decided under C12 on a precise list model (any length <= 2^60 bytes)']
     run(ctx, prog)
+
+    def coroutines():
+        import c09
+        from replay import run_replay
+        for name, rx in ENTRY_CO:
+            def one(name=name, rx=rx):
+                fs = prog.find(rx)
+                if len(fs) != 1:
+                    raise Refuse('%s: %d coroutine bodies match' % (name, len(fs)))
+                paths, ex = c09.coroutine_paths(ctx, prog, fs[0], max_paths=100000)
+                bad = []
+                for p in paths:
+                    if p.kind == 'panic' and not any(re.search(pat, p.msg) for pat, _ in CONTRACTS):
+                        bad.append(p)
+                if not [p for p in paths if p.kind == 'return']:
+                    raise Refuse('%s: no returning path' % name)
+                if not bad:
+                    ctx.add(Ob('%s/no-reachable-panic' % name, 'M', HELD, queries=len(paths), sample='%s: %d ready-paths, no panic outcome' % (name, len(paths))))
+                    return
+                rep = {'scenario': 'panic_sweep'}
+                res = run_replay(rep)
+                ctx.add(Ob('%s/no-reachable-panic' % name, 'M', VIOLATED if res.get('reproduced') else INCONCLUSIVE,
+                           detail='panic reachable: %s; native: %s' % (bad[0].msg[:200], res.get('detail', '')[:300]), replay=rep, queries=len(paths)))
+            guarded(ctx, '%s/no-reachable-panic' % name, 'M', one)
+    coroutines()
 
     def verifiers():
         prog_v, info_v = load(CRATES_V, src_only=['identity_jose'])
